@@ -59,7 +59,7 @@ Init == /\ pc = [g \in G |-> IF SharedCurrent /\ Op(g).kind = "render" THEN "wri
 \* hist records the steps at which the implementation has a gate (the others are local
 \* to the goroutine: their interleaving is not observable); a schedule is a sequence of
 \* goroutine ids, one per gate passed
-GateSteps == {"lookup", "tokget", "readtokens", "tokput", "insert"}
+GateSteps == {"lookup", "tokget", "readtokens", "tokput", "insert", "render"}
 Step(g, name) == hist' = IF name \in GateSteps THEN Append(hist, [g |-> g, s |-> name]) ELSE hist
 Goto(g, l) == pc' = [pc EXCEPT ![g] = l]
 
@@ -100,13 +100,14 @@ Insert(g) == /\ pc[g] = "insert" /\ Step(g, "insert")
              /\ UNCHANGED <<tokFree, tokBuf, mytok, parsed, paths, cur, resolved, result>>
 Resolve(g) == /\ pc[g] = "resolve" /\ Step(g, "resolve")
               /\ resolved' = [resolved EXCEPT ![g] = IF SharedCurrent THEN cur ELSE Op(g).n]
-              /\ Goto(g, IF Workload = "dirs" THEN "inclookup" ELSE "render")
+              /\ Goto(g, "render")
               /\ UNCHANGED <<templates, tokFree, tokBuf, mytok, parsed, paths, cur, result, linver>>
 \* the relative include of the dirs workload looks its (already cached) target up: one more gate
-IncLookup(g) == /\ pc[g] = "inclookup" /\ Step(g, "lookup") /\ Goto(g, "render")
+IncLookup(g) == /\ pc[g] = "inclookup" /\ Step(g, "lookup") /\ Goto(g, "done")
                 /\ UNCHANGED <<templates, tokFree, tokBuf, mytok, parsed, paths, cur, resolved, result, linver>>
+\* the template handed out by Load is rendered: what is rendered is what was current at the linearization point
 RenderBody(g) == /\ pc[g] = "render" /\ Step(g, "render")
-                 /\ result' = [result EXCEPT ![g] = linver[g]] /\ Goto(g, "done")
+                 /\ result' = [result EXCEPT ![g] = linver[g]] /\ Goto(g, IF Workload = "dirs" THEN "inclookup" ELSE "done")
                  /\ UNCHANGED <<templates, tokFree, tokBuf, mytok, parsed, paths, cur, resolved, linver>>
 
 Next == \E g \in G : WriteCur(g) \/ Lookup(g) \/ PathRead(g) \/ PathWrite(g) \/ TokGet(g) \/ Tokenize(g) \/ ReadTokens(g)
